@@ -52,9 +52,12 @@ type liveServer struct {
 }
 
 // startServer: kind = udp | tcp | pc (generic PacketConn) | pipe (in-memory listener)
-func startServer(kind string, p *srvProbe) (*liveServer, error) {
+func startServer(kind string, p *srvProbe, configure ...func(*dns.Server)) (*liveServer, error) {
 	ls := &liveServer{probe: p, serveCh: make(chan error, 1)}
 	srv := &dns.Server{Handler: p.handler(), ReadTimeout: 5 * time.Second}
+	for _, f := range configure {
+		f(srv) // before the server runs: its fields are read without a lock by the serving goroutines
+	}
 	started := make(chan struct{})
 	srv.NotifyStartedFunc = func() { close(started) }
 	switch kind {
@@ -238,9 +241,10 @@ func runC13(c *Ctx) {
 		//          still unblocked and closed by Shutdown
 		{
 			p := &srvProbe{}
-			if ls, err := startServer("tcp", p); err == nil {
-				ls.srv.ReadTimeout = time.Hour
-				ls.srv.IdleTimeout = func() time.Duration { return time.Hour }
+			if ls, err := startServer("tcp", p, func(s *dns.Server) {
+				s.ReadTimeout = time.Hour
+				s.IdleTimeout = func() time.Duration { return time.Hour }
+			}); err == nil {
 				client, derr := net.Dial("tcp", ls.addr)
 				if derr == nil {
 					// one exchange makes sure the connection has been accepted and is being served
